@@ -6,6 +6,21 @@ pub use shuttle::thread::{spawn, yield_now, JoinHandle};
 #[cfg(not(feature = "e1"))]
 pub use std::thread::{spawn, yield_now, JoinHandle};
 
+/// Synchronisation primitives whose operations are scheduling points of the
+/// simulator (E1) or plain `std` primitives (E2).
+pub mod sync {
+    #[cfg(feature = "e1")]
+    pub use shuttle::sync::{
+        atomic::{AtomicBool, AtomicU64, AtomicUsize, Ordering},
+        Condvar, Mutex,
+    };
+    #[cfg(not(feature = "e1"))]
+    pub use std::sync::{
+        atomic::{AtomicBool, AtomicU64, AtomicUsize, Ordering},
+        Condvar, Mutex,
+    };
+}
+
 /// Identifier of the current (simulated) thread.
 #[cfg(feature = "e1")]
 pub fn me() -> u32 {
@@ -18,4 +33,40 @@ pub fn me() -> u32 {
     static NEXT: AtomicU32 = AtomicU32::new(0);
     thread_local! { static ME: u32 = NEXT.fetch_add(1, Ordering::Relaxed); }
     ME.with(|m| *m)
+}
+
+/// Minimal `block_on` for the component harnesses: the waker sets a flag under
+/// a (simulated) mutex and signals a condition variable.
+pub fn block_on<F: std::future::Future>(fut: F) -> F::Output {
+    use std::sync::Arc;
+    use std::task::{Context, Poll, Wake, Waker};
+    struct Signal {
+        flag: sync::Mutex<bool>,
+        cv: sync::Condvar,
+    }
+    impl Wake for Signal {
+        fn wake(self: Arc<Self>) {
+            self.wake_by_ref()
+        }
+        fn wake_by_ref(self: &Arc<Self>) {
+            let mut f = self.flag.lock().unwrap();
+            *f = true;
+            drop(f);
+            self.cv.notify_one();
+        }
+    }
+    let sig = Arc::new(Signal { flag: sync::Mutex::new(false), cv: sync::Condvar::new() });
+    let waker = Waker::from(sig.clone());
+    let mut cx = Context::from_waker(&waker);
+    let mut fut = std::pin::pin!(fut);
+    loop {
+        if let Poll::Ready(v) = fut.as_mut().poll(&mut cx) {
+            return v;
+        }
+        let mut f = sig.flag.lock().unwrap();
+        while !*f {
+            f = sig.cv.wait(f).unwrap();
+        }
+        *f = false;
+    }
 }
